@@ -797,6 +797,7 @@ def run(c):
         pass
     dim("histories: force right after an integrator switch", 0)
     dim("time: shear ghost boxes at t != 0", 0)
+    dim("histories: TREE force after the particle array changed under the tree (mass edit / transfer / removal)", 0)
     dim("roles: non-identity encounter map (MERCURIUS/TRACE)", 0)
 
     # ======================================================================= pairwise conjunctions (greedy all-pairs covering array)
@@ -810,8 +811,10 @@ def run(c):
         "soft": ["0", "small", "large"],
         "G": ["1", "other"],
         "nclass": ["2", "3-6", "7-20"],
-        "h1": ["none", "copy", "file", "pickle", "remove", "add", "whfast-step", "edit"],
-        "h2": ["none", "copy", "file", "pickle", "remove", "add", "whfast-step", "edit"],
+        # "edit-mass": ONLY the mass of a particle that is already in the simulation (and, for TREE, already in its leaf) changes;
+        # "edit": mass, position and softening change together
+        "h1": ["none", "copy", "file", "pickle", "remove", "add", "whfast-step", "edit", "edit-mass"],
+        "h2": ["none", "copy", "file", "pickle", "remove", "add", "whfast-step", "edit", "edit-mass"],
         "entry": ["calculate_acceleration", "update_acceleration", "step"],
         "var": ["none", "first", "second"],
         "cb": ["none", "additional_forces"],
@@ -857,8 +860,7 @@ def run(c):
         arr = arr + triples_array(PF, pf_ok, SplitMix(4712), ("routine", "roles", "bnd"), arr) + triples_array(PF, pf_ok, SplitMix(4713), ("routine", "h1", "h2"), arr)
         todo_cases = arr
     else:
-        k3 = 3
-        todo_cases = [cs for i_, cs in enumerate(arr) if i_ % k3 == c.seed % k3]      # every pair within three consecutive seeds
+        todo_cases = arr      # the whole array in every run (the cases are tiny): every admissible pair with every seed
     plog = PairLog(PF, pvalid, pexcl)
     pw_fail = 0
     for pi, f in enumerate(todo_cases):
@@ -953,6 +955,11 @@ def run(c):
                     sim.particles[k_].m = sim.particles[k_].m * 1.7 + (m0 * 1e-4 if f["roles"] != "massless-tp" or k_ < (n if na == -1 else na) else 0.0)
                     sim.particles[k_].x += 0.01 * scale
                     sim.softening = sim.softening * 1.3
+                elif ev == "edit-mass":
+                    nz_ = [i_ for i_ in range(sim.N - sim.N_var) if sim.particles[i_].m != 0.0]       # zero masses keep their role
+                    if nz_:
+                        k_ = rng.choice(nz_)
+                        sim.particles[k_].m = sim.particles[k_].m * rng.choice([0.25, 3.0])
                 elif ev == "whfast-step":
                     g_keep = sim.gravity
                     sim.integrator = "whfast"; sim.dt = 1e-3 * math.sqrt(scale ** 3 / (G * m0)) if G * m0 > 0 else 1e-3
@@ -1068,8 +1075,8 @@ def run(c):
     prep["factors"] = {k_: len(v_) for k_, v_ in PF.items()}
     prep["array_size"] = len(arr)
     c.cov["pairs"] = prep
-    if c.thorough and prep["covered"] < prep["total"]:
-        c.broken.append("coverage: %d of %d admissible factor pairs were not evaluated in the thorough tier, e.g. %s" % (prep["total"] - prep["covered"], prep["total"], prep["missing"][:3]))
+    if prep["covered"] < prep["total"]:
+        c.broken.append("coverage: %d of %d admissible factor pairs were not evaluated, e.g. %s" % (prep["total"] - prep["covered"], prep["total"], prep["missing"][:3]))
 
     # ======================================================================= force after an integrator switch
     # "whichever routine is selected": gravity_ignore_terms left behind by one integrator must not leak into the next
@@ -1340,8 +1347,10 @@ def run(c):
                 out.append(roots[i].contents)
         return out
 
-    def ser(cell, toks, leaves):
-        """preorder tokens; returns list of particle indices below"""
+    def ser(cell, toks, leaves, pre=None):
+        """preorder tokens; returns list of particle indices below; `pre` collects (m, mx, my, mz) of every cell in the same order"""
+        if pre is not None:
+            pre.append((cell.m, cell.mx, cell.my, cell.mz))
         if cell.pt >= 0:
             toks += ["L", cell.pt, cell.remote, d2h(cell.m), d2h(cell.mx), d2h(cell.my), d2h(cell.mz)]
             return [cell.pt]
@@ -1349,21 +1358,29 @@ def run(c):
         toks += ["N", d2h(cell.w), d2h(cell.m), d2h(cell.mx), d2h(cell.my), d2h(cell.mz), len(kids)]
         mine = []
         for kc in kids:
-            mine += ser(kc, toks, leaves)
+            mine += ser(kc, toks, leaves, pre)
         leaves.append((cell, mine))
         return mine
 
+    # factors of the TREE block; "event" = what happens to the particles AFTER they entered the tree (sim.add inserts them) and before the force call
+    TF = {"event": ["none", "edit-mass", "force then edit-mass", "edit-mass + move", "mass transfer i->j", "force then remove"],
+          "theta": ["0", "finite"], "bnd": ["open", "periodic"], "roots": ["1", "several"]}
+    tarr, tvalid, texcl = covering_array(TF, lambda f_: True, SplitMix(4721))
+    tlog = PairLog(TF, tvalid, texcl)
     thist = {}
     for case in range(60 * T):
         rng = c.rng.fork()
+        tf = tarr[case % len(tarr)]
         n = gen_N(rng)
+        if tf["event"] != "none":
+            n = max(n, 3)
         cfg = gen_common(rng, n)
         cfg.update(Na=-1, tp=0, ignore=0)
-        th2 = rng.choice([0.0, 0.0, 0.0, 0.09, 0.25, 0.49, 1.0])
+        th2 = 0.0 if tf["theta"] == "0" else rng.choice([0.09, 0.25, 0.49, 1.0])
         L = cfg["scale"] * rng.uniform(6, 12)
-        bnd = rng.choice(["open", "periodic"])
+        bnd = tf["bnd"]
         gx, gy, gz = (rng.randint(0, 1), rng.randint(0, 1), rng.randint(0, 1)) if (rng.chance(0.4) and n <= 40) else (0, 0, 0)
-        nr = rng.choice([(1, 1, 1), (1, 1, 1), (2, 1, 1), (2, 2, 1), (1, 2, 3)])
+        nr = (1, 1, 1) if tf["roots"] == "1" else rng.choice([(2, 1, 1), (2, 2, 1), (1, 2, 3)])
         cfg.update(boundary=bnd, shifted=1, ngx=gx, ngy=gy, ngz=gz, bs=(L, L, L))
         sim = rebound.Simulation()
         sim.G = cfg["G"]; sim.softening = cfg["soft"]
@@ -1383,6 +1400,30 @@ def run(c):
         clib.reb_simulation_update_tree_gravity_data(ctypes.byref(sim))
         if sim.N != n:
             continue
+        # ---- the event: the particle array changes while the particles sit in their leaves
+        ev = tf["event"]
+        if ev.startswith("force then"):
+            calc(sim)
+        if ev in ("edit-mass", "force then edit-mass", "edit-mass + move"):
+            for k_ in set(rng.randint(0, n - 1) for _ in range(rng.randint(1, 3))):
+                pk_ = sim.particles[k_]
+                pk_.m = pk_.m * rng.choice([0.2, 5.0]) if pk_.m != 0.0 else 1e-3 * max(cfg["ms"])
+                if ev == "edit-mass + move":
+                    pk_.x = max(-0.49 * cfg["bs"][0], min(0.49 * cfg["bs"][0], pk_.x + rng.normal() * 0.05 * cfg["bs"][0]))
+        elif ev == "mass transfer i->j":       # what a merger does to the masses; the donor stays as a zero-mass particle
+            i_, j_ = rng.randint(0, n - 1), rng.randint(0, n - 2)
+            j_ = j_ + 1 if j_ >= i_ else j_
+            sim.particles[j_].m = sim.particles[j_].m + sim.particles[i_].m
+            sim.particles[i_].m = 0.0
+        elif ev == "force then remove":
+            sim.remove(rng.randint(0, n - 1), keep_sorted=False)
+        if ev != "none":
+            tree_ready(sim)
+            n = sim.N
+            cfg["N"] = n
+            if n < 2 or len(set((sim.particles[i].x, sim.particles[i].y, sim.particles[i].z) for i in range(n))) != n:
+                continue
+            dim("histories: TREE force after the particle array changed under the tree (mass edit / transfer / removal)")
         xs = [[sim.particles[i].x, sim.particles[i].y, sim.particles[i].z] for i in range(n)]   # update_tree may reorder
         cfg["ms"] = [sim.particles[i].m for i in range(n)]
         calc(sim)
@@ -1390,8 +1431,11 @@ def run(c):
         toks, cells = [], []
         roots = tree_cells(sim)
         nleaf = 0
+        pre = []
         for rc_ in roots:
-            nleaf += len(ser(rc_, toks, cells))
+            nleaf += len(ser(rc_, toks, cells, pre))
+        # monopole data: the model's refresh pass (refreshCell: leaves re-read the particle array) on the real tree shape = the C cell fields
+        add_line(["treedata", n] + body_tokens(cfg["ms"], xs) + [len(roots)] + list(toks), pre, ("treedata", cfg, xs, None))
         # hypothesis `hleaves` of c02_tree_theta0_direct on the real tree: the leaves are exactly the particles
         lv = []
         def collect(cell):
@@ -1405,7 +1449,9 @@ def run(c):
             collect(rc_)
         if nleaf != n or sorted(l[0] for l in lv) != list(range(n)) or any(
                 l[1] != 0 or l[2] != cfg["ms"][l[0]] or [l[3], l[4], l[5]] != xs[l[0]] for l in lv):
-            viol.append(("tree:leaves", "the leaves of the tree are not exactly the particles (%d leaves, %d particles)" % (nleaf, n), dict(cfg=cfg, xs=xs, leaves=lv)))
+            stale = [l[0] for l in lv if 0 <= l[0] < n and l[2] != cfg["ms"][l[0]]]
+            viol.append(("tree:leaves", "TREE after event '%s': the leaves of the tree are not exactly the particles (%d leaves, %d particles%s)" % (
+                ev, nleaf, n, "; leaf mass differs from particles[pt].m for particles %s" % stale[:5] if stale else ""), dict(cfg=cfg, xs=xs, leaves=lv, event=ev)))
             continue
         members = {ctypes.addressof(cc): mm for cc, mm in cells}
         gh = ghost_shifts(cfg)
@@ -1414,6 +1460,7 @@ def run(c):
                  + body_tokens(cfg["ms"], xs) + [len(roots)] + toks, got, ("tree", cfg, xs, mag))
         key = "tree0" if th2 == 0.0 else "treeT"
         note(key, cfg)
+        tlog.add(tf)
         thist[str(th2)] = thist.get(str(th2), 0) + 1
         # cell data = total mass and centre of mass of the leaves below (fsum)
         for cell, mine in cells:
@@ -1487,6 +1534,10 @@ def run(c):
                     break
             worst["treeT"] = max(worst.get("treeT", 0.0), worstq)
     c.cov["tree_opening_angle2_histogram"] = thist
+    trep = tlog.report(); trep["factors"] = {k_: len(v_) for k_, v_ in TF.items()}
+    c.cov["pairs_tree"] = trep
+    if trep["covered"] < trep["total"]:
+        c.broken.append("coverage: %d of %d factor pairs of the TREE block were not evaluated, e.g. %s" % (trep["total"] - trep["covered"], trep["total"], trep["missing"][:3]))
     c.cov["mercurius_L_branch_histogram"] = Lhist
 
     c.log("generated %d model lines" % len(lines))
@@ -1503,7 +1554,13 @@ def run(c):
                 stats["bitwise_equal"] += 1
                 continue
             bad = True
-            if len(gt) == len(et) and not (gt and gt[0].startswith("bad")):
+            if routine == "treedata":
+                if len(gt) == len(et) and not (gt and gt[0].startswith("bad")):
+                    gv = [h2d(t) for t in gt]
+                    ev_ = [v for a in e for v in a]
+                    sc_ = max([abs(v) for v in ev_[1::4] + ev_[2::4] + ev_[3::4]] + [1e-300])
+                    bad = any(not (abs(a_ - b_) <= 16 * EPS * (abs(b_) + (0.0 if i_ % 4 == 0 else sc_))) for i_, (a_, b_) in enumerate(zip(gv, ev_)))
+            elif len(gt) == len(et) and not (gt and gt[0].startswith("bad")):
                 try:
                     gv = [h2d(t) for t in gt]
                     model = [tuple(gv[3 * i:3 * i + 3]) for i in range(len(gv) // 3)]
